@@ -1232,6 +1232,67 @@ theorem c11_heal_with_callbacks_hands_on_a_valid_fold (env : Env J S C) (hk : Ho
       by_cases hj0 : j = 0 <;> simp [hj0]
   · rw [h0] at hres; cases hres
 
+/-- Statistics through the healing loop (with or without callbacks): every attempt is one fold — when `heal` returns,
+    `total_folds` grew by exactly the number of attempt records; it grew by at least one and at most `max_retries + 1`
+    also when a user callback's exception leaves `heal`; and consistent counters stay consistent (`successful_folds` =
+    sum of the per-strategy successes, successes ≤ attempts, successful ≤ total). -/
+theorem c11_heal_counts_one_fold_per_attempt (env : Env J S C) (hk : Hooks S C) (cfg : Cfg) (st : Stats)
+    (decay : Rat) (maxRetries : Nat) (gen : Nat → Text) :
+    st.total < (healH env hk cfg st decay maxRetries gen).stats.total ∧
+    (healH env hk cfg st decay maxRetries gen).stats.total ≤ st.total + (maxRetries + 1) ∧
+    (st.Consistent → (healH env hk cfg st decay maxRetries gen).stats.Consistent) ∧
+    (∀ h, (healH env hk cfg st decay maxRetries gen).res = .ok h →
+      (healH env hk cfg st decay maxRetries gen).stats.total = st.total + h.attempts.length) := by
+  have key : ∀ (fuel k : Nat) (st : Stats) (atts : List HealAtt) (hs : List (HookCall S C)) (tr : Tr J S C),
+      st.total ≤ (healHFrom env hk cfg decay gen fuel k st atts hs tr).stats.total ∧
+      (0 < fuel → st.total < (healHFrom env hk cfg decay gen fuel k st atts hs tr).stats.total) ∧
+      (healHFrom env hk cfg decay gen fuel k st atts hs tr).stats.total ≤ st.total + fuel ∧
+      (st.Consistent → (healHFrom env hk cfg decay gen fuel k st atts hs tr).stats.Consistent) ∧
+      (∀ h, (healHFrom env hk cfg decay gen fuel k st atts hs tr).res = .ok h →
+        (healHFrom env hk cfg decay gen fuel k st atts hs tr).stats.total + atts.length = st.total + h.attempts.length) := by
+    intro fuel
+    induction fuel with
+    | zero =>
+      intro k st atts hs tr
+      refine ⟨Nat.le_refl _, fun h => absurd h (Nat.lt_irrefl 0), Nat.le_refl _, fun h => h, ?_⟩
+      intro h hres
+      simp [healHFrom] at hres
+      subst hres
+      rfl
+    | succ fuel ih =>
+      intro k st atts hs tr
+      obtain ⟨htot, heq, hcons⟩ := c11_stats_with_callbacks env hk cfg st (gen k) []
+      rw [← heq] at htot hcons
+      unfold healHFrom
+      rcases hx : foldXH env hk cfg st (gen k) [] with ⟨st1, hs1, tr1, res⟩
+      rw [hx] at htot hcons
+      simp only at htot hcons
+      cases res with
+      | raise e =>
+        refine ⟨by simp only; omega, fun _ => by simp only; omega, by simp only; omega, hcons, ?_⟩
+        intro h hres; cases hres
+      | ok r =>
+        by_cases hv : r.valid = true
+        · simp only [hv, if_true]
+          refine ⟨by omega, fun _ => by omega, by omega, hcons, ?_⟩
+          intro h hres
+          cases hres
+          simp
+          omega
+        · simp only [hv]
+          obtain ⟨i1, _, i3, i4, i5⟩ := ih (k + 1) st1 (atts ++ [⟨k, false, 0⟩]) (hs ++ hs1) (tr ++ tr1)
+          refine ⟨by simp at i1 ⊢; omega, fun _ => by simp at i1 ⊢; omega, by simp at i3 ⊢; omega,
+            fun hc => by simpa using i4 (hcons hc), ?_⟩
+          intro h hres
+          have := i5 h (by simpa using hres)
+          simp at this ⊢
+          omega
+  obtain ⟨_, k2, k3, k4, k5⟩ := key (maxRetries + 1) 0 st [] [] []
+  refine ⟨k2 (Nat.succ_pos _), k3, k4, ?_⟩
+  intro h hres
+  have := k5 h hres
+  simpa [healH] using this
+
 /-- A Chaperone that was handed to the library's healing wrapper stays the validator the caller configured: constructing
     a `ChaperoneLoop` on it changes nothing, and a healing run moves its counters only — strategy list and callbacks are
     the caller's, and every later `fold_enhanced` / `fold` on it invokes the same callbacks, makes the same library
@@ -1317,13 +1378,16 @@ theorem c11_extracted_tables_agree :
     and leaves its configuration (strategy list, co-chaperones, `on_misfold`, tables) as it was — `HInst.wrapInLoop` is
     the identity; a healing run over one misfold and one clean text calls `fold_enhanced` twice and nothing else and
     leaves the configuration as it was — `healH` is made of `foldXH`, `HInst.afterHeal` moves the counters only;
-    `BioAgent(…).chaperone` is a default-configured `Chaperone` with a list of its own (protocol op `agent` = `new none`). -/
+    `BioAgent(…).chaperone` is a default-configured `Chaperone` with a list of its own (protocol op `agent` = `new none`);
+    the package's exports (`operon_ai`, `operon_ai.organelles`, `operon_ai.healing`) are the very classes the modules
+    define, not preconfigured stand-ins (protocol op `via` changes nothing). -/
 theorem c11_extracted_wrapper_facts_agree :
     Gen.ChaperoneTables.loopCtorCalls = some loopCtorCalls ∧
     Gen.ChaperoneTables.loopCtorLeavesConfig = some true ∧
     Gen.ChaperoneTables.healCalls = some (healCallsFor 1) ∧
     Gen.ChaperoneTables.healLeavesConfig = some true ∧
-    Gen.ChaperoneTables.agentChaperoneIsDefault = some true := by
-  refine ⟨by decide, by decide, by decide, by decide, by decide⟩
+    Gen.ChaperoneTables.agentChaperoneIsDefault = some true ∧
+    Gen.ChaperoneTables.exportsAreTheDefinitions = some true := by
+  refine ⟨by decide, by decide, by decide, by decide, by decide, by decide⟩
 
 end Operon.Chaperone
